@@ -688,3 +688,12 @@ Proof.
   intros cfg accept g o Hg Ha. destruct (metadata_tombstone accept g o Hg) as (al & H).
   unfold process_message_for. rewrite H, Ha. cbn [address map]. eauto.
 Qed.
+
+(* no list configured (key absent, or present with the empty string): every group is accepted, whatever a pattern would
+   have answered; only a denylist that is set can reject when no allowlist is set *)
+Lemma reader_accept_no_lists : forall a_m d_m, reader_accept false a_m false d_m = true.
+Proof. intros [] []; reflexivity. Qed.
+Lemma reader_accept_no_allowlist : forall a_m d_set d_m, reader_accept false a_m d_set d_m = negb (d_set && d_m).
+Proof. intros [] [] []; reflexivity. Qed.
+Lemma reader_accept_no_denylist : forall a_set a_m d_m, reader_accept a_set a_m false d_m = (negb a_set || a_m).
+Proof. intros [] [] []; reflexivity. Qed.
